@@ -16,7 +16,7 @@ from ..seams import (Stepper, Ambient, SimFS, install_fs, uninstall_fs)
 
 ID = 'C11'
 BUDGET = {
-    'quick': {'runs': 2500, 'wall': 400, 'chunk': 25, 'shrink': 250},
+    'quick': {'runs': 1500, 'wall': 400, 'chunk': 25, 'shrink': 250},
     'thorough': {'runs': 150000, 'wall': 2700, 'chunk': 100, 'shrink': 400},
 }
 RULE = ('each run = 1-3 generated workbooks (1-4 sheets incl. names needing '
@@ -74,7 +74,7 @@ def gen_case(seed, tier='quick'):
         b = rng.randrange(nwb)
         names = [s['name'] for s in books[b]['sheets']]
         op = {'op': 'load', 'wb': b, 'ignore': subsets(names, rng),
-              'via': rng.choice(['path', 'path', 'file']),
+              'via': rng.choice(['path', 'path', 'file', 'two_step']),
               'bufsize': rng.choice([16, 64, 512, 4096, 8192])}
         if not op['ignore'] and rng.random() < 0.5:
             op['explicit_ignore'] = True
@@ -311,12 +311,34 @@ def _run(case, fs):
         fs.reset_op(bufsize=op.get('bufsize'), read_fault=rf,
                     short_seed=short)
         mc = ModelCompiler()
+        retried = False
         st = Stepper(interrupt_at=at, no_interrupt_in=CLEANUP)
         # an empty ignore list is passed implicitly (the API's default
         # argument) unless the op says otherwise
         kw = {} if (not ignore and not op.get('explicit_ignore')) \
             else {'ignore_sheets': list(ignore)}
-        if op.get('via') == 'file':
+        holder = {}
+        if op.get('via') == 'two_step':
+            # the documented two-step form: read the archive once, then
+            # parse it (possibly again after an interrupted parse)
+            def two_step():
+                holder['archive'] = mc.read_excel_file(path)
+                mc.parse_archive(holder['archive'], **kw)
+                mc.model.build_code()
+                return mc.model
+            with st:
+                out = outcome_of(two_step)
+            if out == ['interrupt'] and 'archive' in holder:
+                bump('probe:parse_retried_on_same_archive')
+                mc = ModelCompiler()
+
+                def again():
+                    mc.parse_archive(holder['archive'], **kw)
+                    mc.model.build_code()
+                    return mc.model
+                out = outcome_of(again)
+                retried = True
+        elif op.get('via') == 'file':
             fobj = open(path, 'rb')
             with st:
                 out = outcome_of(mc.read_and_parse_archive, fobj, **kw)
@@ -349,6 +371,10 @@ def _run(case, fs):
                     'detail': {'op': seq, 'faults': fired, 'outcome': out}}
             break
         hard = [f for f in fired if f in ('read_eio', 'interrupt_in_load')]
+        if retried:
+            # the retry itself ran fault-free on an archive that was read
+            # completely: it must be right
+            hard = [f for f in hard if f != 'interrupt_in_load']
         if out[0] != 'ok':
             if hard:
                 bump('probe:load_failed_on_injected_fault')
